@@ -13,7 +13,7 @@ PROPERTIES = ["C17"]
 MANIFEST = {
     "C17": {
         "technique": "Lean 4 proof (model of Sha256.cpp/Sha256.hpp whose constants, macro bodies AND every function body - Transform in all three build configurations, reset, WriteByteBlock, update, finalize, hash, hmac - are re-translated from the current sources on every run by a C-subset translator, proved equal to FIPS 180-4 / RFC 2104 written independently) + differential correspondence real code (built in up to three configurations) vs the translated bodies executed by the model driver vs Python hashlib/hmac",
-        "text": "Kernel-checked theorems for ALL messages, chunkings and keys: the generated K/H0 are the constants of the standard (defined as cube/square roots of the first primes, roots proved exact), the generated macro bodies S0 S1 s0 s1 Ch Maj are the functions of FIPS 4.1.2, the GENERATED body of Transform (copy loops, j/i loops, macro R over the rolling 16-word window and the rotating register index) equals the FIPS compression function for every chaining value, block and initial content of its uninitialised locals, and so do the generated Transform bodies of the two other build configurations of the sources (-D_SHA256_UNROLL, -D_SHA256_UNROLL2: transform_unroll_eq, transform_unroll2_eq); the bodies of reset, WriteByteBlock, update, finalize and the static helper hash translated from the sources (typed statement translator) are proved equal to the model functions for every object state and input (generated_bodies_are_the_model), and update/finalize over any list of chunks equals the FIPS digest of the concatenation (streaming, streaming_generated; one- and two-block padding cases).  NEW in round 7: the body of Sha256::hmac is translated from the current Sha256.hpp as well (local object, if/else key normalisation with Memory::copy/Memory::zero at pointer offsets as checked block writes, finalize into the first digestSize bytes of hashKey through the reference cast, pad loop with byte xor, inner and outer pass over blockSize/digestSize-byte prefixes of the local arrays, usize sizes as naturals with flagged subtraction) and proved to be HMAC of RFC 2104 for every key (longer than / equal to / shorter than the block, empty), every message and EVERY initial content of its four uninitialised local arrays (hmac_translated_eq_rfc2104); the length hypotheses are gone where they were only technical: for every chunking of a message of ANY length finalize computes the FIPS formula with the low 64 bits of the bit length in the length field (streaming_any_length; = FIPS below 2^61 bytes), the 64-bit byte counter holds the length mod 2^64 and the buffer position stays length mod 64 when it wraps (byte_counter_wraps, length_field_wraps), copy_midstream holds without bound; an empty update leaves the object untouched without entering the loop that dereferences data (update_empty_is_identity).  Chunk boundaries leave no trace in the object itself, for EVERY object state: update(update(p,a),b) = update(p,a++b) as whole objects (chaining value, 64-bit counter, buffer bytes, ghost flag), for the model and the translated body (chunking_leaves_no_trace).  The buffer bytes at and beyond the buffer position carry no information: replaced by arbitrary bytes after any chunking they change no digest of any continuation (stale_buffer_bytes_are_irrelevant) - so the model's zeros for the indeterminate buffer of a new object are unobservable.  The hasher is reusable after construction/finalize/reset, a hasher copied mid-stream and its original continue independently (copy_midstream), the byte<->word conversions are big-endian for every buffer content without alignment/endianness assumptions (byte_word_assembly_is_big_endian).  Tie to the current sources on every run: tables, header constants, macro bodies and the function bodies are re-translated (g++ -E -dD, g++ -E -dD -fdirectives-only, C parser + emitters; names of parameters and locals are canonicalised, so renaming them changes nothing) and all theorems are re-checked over them; the model driver EXECUTES the translated update/finalize/Transform/hash/hmac (hmac with an input-dependent poison pattern in its uninitialised arrays) against the real code (ASan/UBSan) on identical op lines - all lengths 0..300 x all 2-way splits, lengths 0..70 x all 3-way splits, sampled 3-way splits with interleaved reset/finalize, copies mid-stream (copy constructor/assignment), lengths to 70000, keys 0..200 plus every branch of the key normalisation x the padding classes of the inner message (quick tier: seed-chosen slices), single Transform calls on arbitrary chaining values (white box) - on the harness built from the sources as they are and again with -D_SHA256_UNROLL2 and -D_SHA256_UNROLL; every digest is also compared with Python hashlib/hmac; two further streams pass empty inputs as (nullptr, 0) and preset `count` (white box) to multiples of 64 up to 2^64-64 and feed on past 2^64 (the counter wraps in the real code, the model and the oracle).",
+        "text": "Kernel-checked theorems for ALL messages, chunkings and keys: the generated K/H0 are the constants of the standard (defined as cube/square roots of the first primes, roots proved exact), the generated macro bodies S0 S1 s0 s1 Ch Maj are the functions of FIPS 4.1.2, the GENERATED body of Transform (copy loops, j/i loops, macro R over the rolling 16-word window and the rotating register index) equals the FIPS compression function for every chaining value, block and initial content of its uninitialised locals, and so do the generated Transform bodies of the two other build configurations of the sources (-D_SHA256_UNROLL, -D_SHA256_UNROLL2: transform_unroll_eq, transform_unroll2_eq); the bodies of reset, WriteByteBlock, update, finalize and the static helper hash translated from the sources (typed statement translator) are proved equal to the model functions for every object state and input (generated_bodies_are_the_model), and update/finalize over any list of chunks equals the FIPS digest of the concatenation (streaming, streaming_generated; one- and two-block padding cases).  NEW in round 7: the body of Sha256::hmac is translated from the current Sha256.hpp as well (local object, if/else key normalisation with Memory::copy/Memory::zero at pointer offsets as checked block writes, finalize into the first digestSize bytes of hashKey through the reference cast, pad loop with byte xor, inner and outer pass over blockSize/digestSize-byte prefixes of the local arrays, usize sizes as naturals with flagged subtraction) and proved to be HMAC of RFC 2104 for every key (longer than / equal to / shorter than the block, empty), every message and EVERY initial content of its four uninitialised local arrays (hmac_translated_eq_rfc2104); the length hypotheses are gone where they were only technical: for every chunking of a message of ANY length finalize computes the FIPS formula with the low 64 bits of the bit length in the length field (streaming_any_length; = FIPS below 2^61 bytes), the 64-bit byte counter holds the length mod 2^64 and the buffer position stays length mod 64 when it wraps (byte_counter_wraps, length_field_wraps), copy_midstream holds without bound; an empty update leaves the object untouched without entering the loop that dereferences data (update_empty_is_identity).  Chunk boundaries leave no trace in the object itself, for EVERY object state: update(update(p,a),b) = update(p,a++b) as whole objects (chaining value, 64-bit counter, buffer bytes, ghost flag), for the model and the translated body (chunking_leaves_no_trace).  The buffer bytes at and beyond the buffer position carry no information: replaced by arbitrary bytes after any chunking they change no digest of any continuation (stale_buffer_bytes_are_irrelevant) - so the model's zeros for the indeterminate buffer of a new object are unobservable.  hmac satisfies the two key equivalences of RFC 2104 for every message: a key longer than the block = its own digest, a key shorter than the block = itself followed by a zero byte (hmac_key_equivalences).  The hasher is reusable after construction/finalize/reset, a hasher copied mid-stream and its original continue independently (copy_midstream), the byte<->word conversions are big-endian for every buffer content without alignment/endianness assumptions (byte_word_assembly_is_big_endian).  Tie to the current sources on every run: tables, header constants, macro bodies and the function bodies are re-translated (g++ -E -dD, g++ -E -dD -fdirectives-only, C parser + emitters; names of parameters and locals are canonicalised, so renaming them changes nothing) and all theorems are re-checked over them; the model driver EXECUTES the translated update/finalize/Transform/hash/hmac (hmac with an input-dependent poison pattern in its uninitialised arrays) against the real code (ASan/UBSan) on identical op lines - all lengths 0..300 x all 2-way splits, lengths 0..70 x all 3-way splits, sampled 3-way splits with interleaved reset/finalize, copies mid-stream (copy constructor/assignment), lengths to 70000, keys 0..200 plus every branch of the key normalisation x the padding classes of the inner message (quick tier: seed-chosen slices), single Transform calls on arbitrary chaining values (white box) - on the harness built from the sources as they are and again with -D_SHA256_UNROLL2 and -D_SHA256_UNROLL; every digest is also compared with Python hashlib/hmac; two further streams pass empty inputs as (nullptr, 0) and preset `count` (white box) to multiples of 64 up to 2^64-64 and feed on past 2^64 (the counter wraps in the real code, the model and the oracle).",
         "note": "Trusted: Lean kernel + the three standard axioms; the translator tools/gen_sha.py (C parser, macro emitter, function-body emitters; it refuses what it cannot translate faithfully in the macros and in Transform - unsequenced side effects, aliasing macro arguments, non-constant loop bounds; its output is executed by the driver in the correspondence run); the conventions of the body translation (input byte range = list and its usize size = the list's length, output pointer/reference = appended bytes, Nat counters for constant-bound for loops, zeros for a callee's uninitialised locals - proved irrelevant for Transform; hmac's uninitialised local arrays are PARAMETERS of the generated function and universally quantified in the theorem; iteration budget 2^32 for the padding while loop - proved never exhausted; `Sha256 x;` = init, checked against the constructor `Sha256() {reset();}`; Memory::copy/Memory::zero = the documented memcpy/memset as checked block writes storeAt/zeroAt of Model.lean that destroy the array when the block does not fit; bitwise & | ^ on two byte values stay bytes, any other arithmetic on bytes is refused; a usize subtraction that would wrap clears the ghost flag).  A body of reset/WriteByteBlock/update/finalize/hash/hmac that is outside the translated C subset is NOT an alarm: the function falls back to the hand-written model function for that run (tie = correspondence run only) and coverage.translated_bodies says so; on the unchanged tree all six are translated.  A translated body whose equality proof no longer checks IS an alarm (a failing input is searched; `no-failing-input-found` if the rewrite was harmless).  Hand-written: Model.lean (the functions the translated bodies are proved equal to; used directly only when a body falls back), my transcription of FIPS 180-4 / RFC 2104 in Spec.lean (kernel-evaluated on the NIST 'abc', empty, two-block vectors and RFC 4231 cases 1 and 6, and compared with Python hashlib/hmac through the driver on every run: tests).  The three configurations are generated from a scratch copy of Sha256.cpp in which a source-level #define _SHA256_UNROLL[2] is blanked (the only textual preprocessing not left to g++); the _MSC_VER branch of rotlFixed/rotrFixed is not compiled and not modelled.  Memory abstraction: C arrays are Lean lists; every write goes through a checked `wr`/`storeAt` that destroys the array on an out-of-range index, every read is recorded in a ghost flag `ok` that the model carries and the driver reports as FAULT; the theorems hold for all inputs and include ok = true (the harness additionally runs the real code under ASan with the hashers in exactly sized heap blocks).  A null pointer for an empty range cannot be expressed in the model (a range is a list): that `update`/`hash`/`hmac` do not pass it to memcpy is tied by the stream sha-null-args only.  Copying: the model's objects are values, so copy_midstream holds by construction in the model; that the C++ implicit copy is member-wise is tied by the ops fork/assign/swap.  Hypotheses of the theorems: fewer than 2^61 bytes per digest ONLY for the statements that name FIPS (= its 2^64-bit limit) and for hmac; streaming_any_length has none.  No theorem is partial; there is no OPEN statement.",
         "design_ref": "DESIGN.md 3/C17",
     }
